@@ -69,6 +69,7 @@ theorem fieldScoreLaws : @ScoreLaws K (fieldScoreOps K) := by
     have : ((q.den : Int) : K) ≤ ((q.num : Int) : K) := Int.cast_le.mpr h
     simpa using this
   · intro a b c h; exact sub_le_sub_left h c
+  · intro a b h; exact le_add_of_nonneg_right h
 
 end
 
